@@ -151,6 +151,38 @@ def shard_size(n, i, k):
 
 
 def gen_cases(ctx):
+  """Corpus, small-exhaustive, random large, malformed; what was generated is counted into the evidence."""
+  for c in _gen_cases(ctx):
+    kind = c['kind']
+    ctx.count('kind', kind)
+    if c.get('malform'):
+      ctx.count('malformed', f"{kind}:{c['malform']}")
+    if kind == 'shards':
+      ctx.count('shards.depth', len(c['path']) + 1)
+      ctx.count('shards.k_vs_n', 'k>n' if c['k'] > sum(c['sizes']) else 'k<=n')
+      ctx.count('shards.parts', min(len(c['sizes']), 4))
+      if any(p[2] for p in c['path']):
+        ctx.count('shards.parent_offset', 'nonzero')
+    elif kind == 'merged':
+      sizes = [len(p['outs']) for p in c['parts']]
+      ctx.count('merged.parts', len(sizes))
+      ctx.count('merged.has_empty_part', 0 in sizes)
+      ctx.count('merged.max_batch', c['max_batch'])
+      ctx.count('merged.sources', 'failing' if any(isinstance(o, str) for p in c['parts'] for o in p['outs']) else 'plain')
+      for p in c['parts']:
+        if p.get('lazy'):
+          ctx.count('merged.lazy', p['lazy'])
+        if not p['sliceable']:
+          ctx.count('merged.unsliceable', 1)
+      for q in c['queries']:
+        ctx.count('merged.query', q['t'])
+    else:
+      ctx.count('rr.k_vs_n', 'k>n' if c['k'] > c['n'] else 'k<=n')
+      ctx.count('rr.start', 'resumed' if c['start'] else 'fresh')
+    yield c
+
+
+def _gen_cases(ctx):
   yield from ctx.corpus()
   rng, quick = ctx.rng, ctx.quick
 
